@@ -116,3 +116,21 @@ pub proof fn lemma_refines_decide_ok_sat(s: SATSolver, pm0: iface::PM, m0: Parti
         if agrees(env, m2) { lemma_sat_extensions(s, m2, env); }
     }
 }
+/// A-sat, `SATSolver::new`: None only for an unsatisfiable formula; otherwise two frames, the first one empty, the second one holding
+/// literals ENTAILED by the formula (the interface's init_ok), every frame sound -- from the contract proved for the real constructor
+pub proof fn lemma_refines_new_none(cs: Seq<Vec<Literal>>)
+    requires unsat(cs),
+    ensures forall|env: Env| #[trigger] tr(env) ==> !sem_cs(cs)(env),
+{}
+pub proof fn lemma_refines_new_some(s: SATSolver, cnf: Cnf, pm1: iface::PM)
+    requires s.solver_ok(), s.state_stack@.len() == 2, s.up.cnf == cnf, implied_by(cnf.clauses@, s.top()), rep(pm1, s.top()),
+    ensures
+        forall|env: Env| #[trigger] tr(env) ==> (sem_cs(cnf.clauses@)(env) ==> iface::agrees(env, pm1)),
+        iface::sound_model_g(sem_cs(s.cs()), s.up.cnf.num_vars as nat, pm1),
+{
+    assert forall|env: Env| #[trigger] tr(env) implies (sem_cs(cnf.clauses@)(env) ==> iface::agrees(env, pm1)) by {
+        lemma_agrees_abs(env, pm1, s.top());
+        if cnf_holds(cnf.clauses@, env) { assert(agrees(env, s.top())); }
+    }
+    lemma_refines_sound_model(s, 1, pm1);
+}
